@@ -4,7 +4,7 @@ CONSTANTS
   Sources <- Both
   BaseDepth = 1
   FinalOps = "few"
-  StartCalcs <- BothStarts
+  Starts <- AllStarts
   Emit = TRUE
 INVARIANT ContentKept
 INVARIANT ColumnsKept
@@ -14,6 +14,7 @@ INVARIANT NoPlacementColumnError
 INVARIANT IllRejected
 INVARIANT EmitState
 PROPERTY LockedKept
+PROPERTY MatsKept
 PROPERTY OptionsHonoured
 PROPERTY NoOpIdentity
 PROPERTY TransferLands
